@@ -25,7 +25,7 @@ PROP = 'C06'
 MODULE = 'Props.C06'
 THEOREMS = ['C06_dump_on_every_outcome', 'C06_flush_before_dump_would_lose_results',
             'C06_final_dump_with_periodic_dumps', 'C06_wrapper_windows_transparent',
-            'C06_unwindowed_segment_would_be_lost', 'C06_content',
+            'C06_unwindowed_segment_would_be_lost', 'C06_builtin_mode_records_profiled_sections', 'C06_content',
             'C06_content_closed_stream', 'C06_content_nonvacuous', 'C06_explicit_atexit_partial',
             'C06_explicit_stdout_unusable_refuted', 'C06_explicit_nonvacuous']
 LEVEL = 'proof'
@@ -68,12 +68,25 @@ else:
 _n = 0
 
 
+def _stamp():
+    import os
+    try:
+        st = os.stat(WAITFILE)
+        return (st.st_mtime_ns, st.st_size)
+    except OSError:
+        return None
+
+
+_W0 = _stamp() if WAITFILE else None        # what an earlier run left under that name
+
+
 def _wait():
-    import os, time
+    import time
     t0 = time.time()
     seen = False
     while WAITFILE and time.time() - t0 < 30 and not seen:
-        seen = os.path.exists(WAITFILE) and os.path.getsize(WAITFILE) > 0
+        now = _stamp()
+        seen = now is not None and now != _W0 and now[1] > 0
         time.sleep(0.01)
     time.sleep(0.2 if WAITFILE else 0)
     print('WAITED', seen, flush=True)
@@ -355,7 +368,7 @@ def analyse(res_case, loaded, prog, ex, ended):
         fails.append('file content differs from the execution counts of the executed prefix: {key: (file, oracle)} = %r' % diff)
     if extra:
         fails.append('statistics for functions the program does not define: %r' % extra)
-    if mode == 'explicit' and loaded['exists']:
+    if mode == 'explicit' and loaded['ok']:
         ls = res_case['listing']
         if 'profile_output.txt' not in ls or not any(re.match(r'profile_output_\d{4}-\d\d-\d\dT\d{6}\.txt$', x) for x in ls):
             fails.append('explicit mode text outputs missing: %r' % ls)
